@@ -101,7 +101,9 @@ def run(ctx):
                 Xe = qx.from_np(X)
                 E1 = [float(v) for v in res['AXA-A']]
                 if any(E1[i + 1] > E1[i] * (1 + 1e-9) + 1e-13 + nfl for i in range(len(E1) - 1)): viol('C03:damped:monotone', '||A X A - A||_F increases', inp, E1)
-                if len(E1) != K or len(cov) != K: viol('C03:damped:history-length', 'history length differs from the iteration budget (tol = 0)', inp, (len(E1), len(cov)))
+                if len(E1) != K or len(cov) != K: viol('C03:damped:history-length' + (':zero' if f2 == 0 else ''), 'history length differs from the iteration budget (tol = 0)', inp, (len(E1), len(cov)))
+                if X.shape != (n, m): viol('C03:damped:shape' + (':zero' if f2 == 0 else ''), f'the returned matrix is {X.shape[0]} x {X.shape[1]}, the pseudoinverse of a {m} x {n} matrix is {n} x {m}', inp, X.shape, (n, m)); continue
+                if not E1: continue
                 # histories are the true values of the returned iterate
                 AX = qx.mm(A, Xe); XA = qx.mm(Xe, A)
                 true_last = [qx.frob2(qx.sub(qx.mm(AX, A), A)), qx.frob2(qx.sub(qx.mm(XA, Xe), Xe)), qx.frob2(qx.sub(AX, qx.herm(AX))), qx.frob2(qx.sub(XA, qx.herm(XA)))]
@@ -134,6 +136,8 @@ def run(ctx):
         except Exception as e: viol('C03:third:raises', f'third-order Newton-Schulz raised {e!r}', inp0); continue
         Te = qx.from_np(T) if np.all(np.isfinite(quaternion.as_float_array(T))) else None
         if Te is None: viol('C03:third:nonfinite', 'third-order Newton-Schulz returned NaN/inf', inp0); continue
+        if T.shape != (n, m): viol('C03:third:shape' + (':zero' if f2 == 0 else ''), f'the returned matrix is {T.shape[0]} x {T.shape[1]}, the pseudoinverse of a {m} x {n} matrix is {n} x {m}', inp0, T.shape, (n, m)); continue
+        if len(res3['AXA-A']) != K3: viol('C03:third:history-length' + (':zero' if f2 == 0 else ''), 'history length differs from the iteration budget (tol = 0)', inp0, len(res3['AXA-A']))
         E1 = [float(v) for v in res3['AXA-A']]
         if any(E1[i + 1] > E1[i] * (1 + 1e-9) + 1e-13 + nfl for i in range(len(E1) - 1)): viol('C03:third:monotone', '||A X A - A||_F increases (third order)', inp0, E1)
         if sv is not None:
